@@ -51,7 +51,8 @@ FILE_PROPS = {
     "grammar/optimizers/unroller.py": ["C02", "C03"],
     "grammar/optimizer.py": ["C02"],
 }
-SKIP_FUNCS = {"__str__", "__repr__", "__eq__", "__hash__", "tree_view", "children", "with_children", "dump", "dumps", "__iter__", "__len__", "__getitem__"}
+# __str__, dump, dumps, __len__, __getitem__ are under contract since session 3 (c13_render, c11_render, c06_dump, c06_access)
+SKIP_FUNCS = {"__repr__", "__eq__", "__hash__", "tree_view", "children", "with_children", "__iter__"}
 
 CMP = {ast.Lt: ast.LtE, ast.LtE: ast.Lt, ast.Gt: ast.GtE, ast.GtE: ast.Gt, ast.Eq: ast.NotEq, ast.NotEq: ast.Eq, ast.Is: ast.IsNot, ast.IsNot: ast.Is, ast.In: ast.NotIn, ast.NotIn: ast.In}
 
